@@ -96,9 +96,9 @@ func (g *Gen) Scenario() {
 	t1, t2 := &handleRef{-1}, &handleRef{-1}
 	fi := -1
 	n1, n2 := 1+g.R.Intn(3), 1+g.R.Intn(3)
-	avail := []int{0, 1, 2, 3, 4, 5, 6, 7, 12, 12, 13, 13, -1, -1}
+	avail := []int{0, 1, 2, 3, 4, 5, 6, 7, 12, 12, 13, 13, 15, 15, 16, 16, -1, -1}
 	if withObs {
-		avail = append(avail, 8, 9, 10, 11, 14, 14)
+		avail = append(avail, 8, 9, 10, 11, 14, 14, 17, 17, 18)
 	}
 	pick := avail[g.R.Intn(len(avail))]
 	if pick < 0 {
@@ -106,6 +106,128 @@ func (g *Gen) Scenario() {
 		return
 	}
 	switch pick {
+	case 15: // a query of a registered filter stays open while that filter is unregistered and ANOTHER filter is
+		// registered (a recycled cache entry must not be handed to the open query)
+		fj, qi := -1, -1
+		q = append(q, g.mkNew(t1, nil, nil))
+		for i := 0; i < n1+1; i++ {
+			q = append(q, g.mkNew(&handleRef{-1}, []int{a}, nil))
+		}
+		q = append(q, g.mkNew(&handleRef{-1}, []int{a, r1}, g.relTo(r1, t1)))
+		q = append(q, g.mkFilter(&fi, []int{a}, nil), g.mkFilter(&fj, []int{r1}, nil))
+		q = append(q, func() []int64 {
+			if fi < 0 || fi >= len(g.S.Filters) {
+				return nil
+			}
+			g.registered[fi] = true
+			return []int64{16, int64(fi)}
+		})
+		q = append(q, func() []int64 {
+			if fi < 0 || fi >= len(g.S.Filters) {
+				return nil
+			}
+			qi = len(g.S.Queries)
+			g.openQueries[qi] = true
+			return cat([]int64{19, int64(fi)}, encPairs(nil))
+		})
+		qop := func(code int64, extra ...int64) lazyOp {
+			return func() []int64 {
+				if qi < 0 || qi >= len(g.S.Queries) {
+					return nil
+				}
+				if code == 21 {
+					delete(g.openQueries, qi)
+				}
+				return append([]int64{code, int64(qi)}, extra...)
+			}
+		}
+		q = append(q, qop(20))
+		q = append(q, func() []int64 {
+			if fi < 0 || fi >= len(g.S.Filters) {
+				return nil
+			}
+			g.registered[fi] = false
+			return []int64{17, int64(fi)}
+		})
+		q = append(q, func() []int64 {
+			if fj < 0 || fj >= len(g.S.Filters) {
+				return nil
+			}
+			g.registered[fj] = true
+			return []int64{16, int64(fj)}
+		})
+		q = append(q, qop(22), qop(23, int64(n1)), qop(20), qop(24), qop(20), qop(20), qop(21))
+	case 16: // RemoveEntities restricted to the entities WITHOUT a parent, several of which are parents themselves:
+		// their children are moved into the very table the batch has just cleared
+		p3 := &handleRef{-1}
+		zero := func() [][2]int64 { return [][2]int64{{int64(r1), -1}} }
+		q = append(q, g.mkNew(t1, []int{a, r1}, zero), g.mkNew(t2, []int{a, r1}, zero), g.mkNew(p3, []int{a, r1}, zero))
+		for i := 0; i < n1; i++ {
+			q = append(q, g.mkNew(&handleRef{-1}, []int{a, r1}, g.relTo(r1, t1)))
+		}
+		for i := 0; i < n2; i++ {
+			q = append(q, g.mkNew(&handleRef{-1}, []int{a, r1}, g.relTo(r1, t2)))
+		}
+		q = append(q, g.mkFilter(&fi, []int{r1}, nil))
+		if g.R.Chance(40) {
+			q = append(q, func() []int64 {
+				if fi < 0 || fi >= len(g.S.Filters) {
+					return nil
+				}
+				g.registered[fi] = true
+				return []int64{16, int64(fi)}
+			})
+		}
+		q = append(q, func() []int64 {
+			if fi < 0 || fi >= len(g.S.Filters) {
+				return nil
+			}
+			return cat([]int64{12, int64(fi)}, encPairs(zero()), []int64{g.fnFlag(false)})
+		})
+		q = append(q, func() []int64 {
+			if fi < 0 || fi >= len(g.S.Filters) {
+				return nil
+			}
+			return cat([]int64{18, int64(fi)}, encPairs(zero()))
+		})
+	case 17: // SetRelations naming two relation components: one target really changes, the other is the one already
+		// held - observers For the UNCHANGED relation must not fire
+		if len(rels) < 2 {
+			return
+		}
+		r2 := rels[0]
+		if r2 == r1 {
+			r2 = rels[1]
+		}
+		t3, e := &handleRef{-1}, &handleRef{-1}
+		q = append(q, g.mkNew(t1, nil, nil), g.mkNew(t2, nil, nil), g.mkNew(t3, nil, nil))
+		both := func(x, y *handleRef) func() [][2]int64 {
+			return func() [][2]int64 {
+				if !g.valid(x) || !g.valid(y) {
+					return nil
+				}
+				return [][2]int64{{int64(r1), int64(x.idx)}, {int64(r2), int64(y.idx)}}
+			}
+		}
+		q = append(q, g.mkNew(e, []int{a, r1, r2}, both(t1, t2)))
+		q = append(q, g.mkObserver(254, []int{r2}, true)...)
+		q = append(q, g.mkObserver(255, []int{r2}, true)...)
+		q = append(q, g.mkObserver(254, []int{r1, r2}, true)...)
+		q = append(q, g.mkObserver(255, []int{r1}, true)...)
+		q = append(q, func() []int64 {
+			r := both(t3, t2)()
+			if r == nil || !g.valid(e) {
+				return nil
+			}
+			return cat([]int64{10, int64(e.idx)}, encPairs(r))
+		})
+	case 18: // a REJECTED observer registration (relation event observed For a plain component) must not count
+		q = append(q, g.mkObserver(254+g.R.Intn(2), []int{a}, true)...)
+		q = append(q, func() []int64 { return []int64{38} })
+		q = append(q, g.mkObserver(249, nil, true)...)
+		q = append(q, func() []int64 { return []int64{38} })
+		q = append(q, func() []int64 { return g.build("reset") })
+		q = append(q, func() []int64 { return []int64{38} })
 	case 14: // batch exchange that removes the relation component of children of several targets (source tables
 		// merge into ONE destination) while adding a component, with OnAdd / OnRemove observers registered:
 		// every affected entity is reported exactly once, after the move, with its own data
